@@ -638,6 +638,13 @@ func runRound(scs []*reqScenario, nodes, numConns, nclients, workers int, out st
 	// reader reads on in the end and must get every answer exactly once; a non-reader hangs up instead, and everybody
 	// else must keep being served.
 	var slowWg sync.WaitGroup
+	var slowMu sync.Mutex
+	var slowOpen []*cqlclient.Client
+	defer func() {
+		for _, sc := range slowOpen {
+			sc.Close()
+		}
+	}()
 	for k := 0; k < ro.slowReaders+ro.nonReaders; k++ {
 		slowWg.Add(1)
 		go func(k int) {
@@ -646,8 +653,17 @@ func runRound(scs []*reqScenario, nodes, numConns, nclients, workers int, out st
 			if err != nil {
 				return
 			}
-			defer sc.Close()
 			non := k >= ro.slowReaders
+			if non {
+				defer sc.Close()
+			} else {
+				// a slow reader stays connected until the round has been judged: what it was never sent is owed to it
+				defer func() {
+					slowMu.Lock()
+					slowOpen = append(slowOpen, sc)
+					slowMu.Unlock()
+				}()
+			}
 			const n = 2600
 			var frms []*frame.Frame
 			var toks, classes []string
@@ -677,7 +693,7 @@ func runRound(scs []*reqScenario, nodes, numConns, nclients, workers int, out st
 				time.Sleep(1500 * time.Millisecond)
 				return // hangs up with everything outstanding
 			}
-			sc.WaitCount(n, 20*time.Second)
+			sc.WaitCount(n+1, 12*time.Second) // (+1: the READY of its handshake)
 		}(k)
 	}
 	for w := 0; w < nclients*workers; w++ {
